@@ -26,7 +26,7 @@ func init() {
 		Technique: "bounded-exhaustive enumeration of field selections (every field alone, all pairs, triples by planner membership class) with and without an event declaration, each run once through the real pipeline against a chain whose every field is distinct and non-zero; oracle = every stored cell equals the node's value",
 		Rule: "cases = the 28 field names the row builder understands: each alone, all 378 unordered pairs, all triples over one representative per membership class of the planner's tables (header/block/receipt/log/trace; every data field of the class 'in no table' is its own representative; thorough: all 3276 triples), " +
 			"each WITH an event declaration that has one selected input (log indexing; thorough: also an all-indexed event whose logs carry no data) and WITHOUT (transaction indexing; trace indexing when a trace field is selected). Chain: 2 blocks x 2 txs x 2 logs x 2 traces, every value distinct and non-zero, tx.to non-nil. " +
-			"Every selection is also run with each field stored under a renamed column (column name != field name). Every well-formed single and pair is also run against a transiently inconsistent source: during the first step the answers of one fetch method (blocks, headers, receipts, logs, the header fetched with logs, traces) for the first / last / every block of the range are {\"result\": null}, followed by a faithful retry; a step must either fail and write nothing or write the declared projection. Only well-formed selections are judged (log_idx/log_addr only with log indexing, trace_action_* only without selected event inputs); ill-formed ones are executed and only 'did it crash' is recorded as an observation. A case is non-trivial when the declared projection has at least one row.",
+			"Chain variants: every selection without event also on a chain whose blocks have transactions and traces but no logs (all logs blooms empty), and every single and pair on three-block chains (one step, batch 3) with a transaction-less block first / in the middle / last. Every selection is also run with each field stored under a renamed column (column name != field name). Every well-formed single and pair is also run against a transiently inconsistent source: during the first step the answers of one fetch method (blocks, headers, receipts, logs, the header fetched with logs, traces) for the first / last / every block of the range are {\"result\": null}, followed by a faithful retry; a step must either fail and write nothing or write the declared projection. Only well-formed selections are judged (log_idx/log_addr only with log indexing, trace_action_* only without selected event inputs); ill-formed ones are executed and only 'did it crash' is recorded as an observation. A case is non-trivial when the declared projection has at least one row.",
 		Assumptions: []string{
 			"simulated node (h/simeth) answers eth_getBlockByNumber / eth_getBlockReceipts / eth_getLogs / trace_block like a well-behaved geth/erigon; fake Postgres (h/simpg) stores what COPY sends",
 			"every block of the chain has transactions, logs and traces (the separately tracked defect 'trace_block answers [] for a block without traces' is not exercised)",
@@ -166,6 +166,19 @@ func c14Specs(thorough bool) []spec {
 	for i, sel := range sels {
 		out = append(out, spec{Part: parts[i] + ":event:renamed", Inputs: event, Fields: sel, Prefix: "c_", Shape: 2})
 		out = append(out, spec{Part: parts[i] + ":noevent:renamed", Fields: sel, Prefix: "c_", Shape: 2})
+	}
+	// chain variants: (4) every block has transactions and traces but NO logs, so every logs bloom is empty (the
+	// receipt-only fields still exist for every transaction); (5..7) a block without transactions first / in the
+	// middle / last of a three-block step (batch 3), so the per-block fetch loops must carry on past it
+	for i, sel := range sels {
+		out = append(out, spec{Part: parts[i] + ":noevent:no-logs-in-chain", Fields: sel, Shape: 4})
+		if parts[i] == "triple" && !thorough {
+			continue
+		}
+		for sh := 5; sh <= 7; sh++ {
+			out = append(out, spec{Part: parts[i] + ":event:empty-block", Inputs: event, Fields: sel, Shape: sh})
+			out = append(out, spec{Part: parts[i] + ":noevent:empty-block", Fields: sel, Shape: sh})
+		}
 	}
 	// transient inconsistency of the source: during the first step the answers of one fetch method for the
 	// first / last / every block of the range are {"result": null} (a lagging backend), then a faithful retry.
